@@ -20,6 +20,8 @@ impl Family {
         match (self.name, thorough) {
             ("assert-2-sizes", true) => 5,
             ("frozen-constant-body", false) => 4,
+            ("symbol-named-like-a-parameter", false) => 4,
+            ("symbol-named-like-a-parameter", true) => 5,
             ("frozen-constant-body", true) => 5,
             (_, false) => 3,
             (_, true) => 4,
@@ -100,6 +102,22 @@ pub fn families() -> Vec<Family> {
                 Item::Label("A".into()),
                 Item::Label("B".into()),
                 Item::Data(Some(8), vec!["0".into()]),
+                Item::Instr("nop".into()),
+            ],
+        },
+        Family {
+            // a symbol that has the same name as a parameter of the rule used on the same line
+            name: "symbol-named-like-a-parameter",
+            rules: vec![RuleSrc::new("jb {a}", "{ assert(a < 6), 0xa @ a`4 }"), RuleSrc::new("jb {a}", "0xb0 @ a`8"), RuleSrc::new("mov {x}, {y}", "0x10 @ x`8 @ y`8"), RuleSrc::new("nop", "0x00")],
+            items: vec![
+                Item::Instr("jb B".into()),
+                Item::Instr("jb x".into()),
+                Item::Instr("mov 5, x".into()),
+                Item::Instr("mov x, 5".into()),
+                Item::Instr("mov y, x".into()),
+                Item::Label("x".into()),
+                Item::Label("y".into()),
+                Item::Label("B".into()),
                 Item::Instr("nop".into()),
             ],
         },
@@ -298,7 +316,7 @@ pub fn quick_budgets() -> Vec<usize> {
 pub fn run(ctx: &Ctx) -> Report {
     let mut rep = Report::new(
         "model_checking",
-        "nine rule families with value-dependent encodings (assert cascades with 2 and 3 sizes, typed-width cascade, pc-relative, far-is-short with no/oscillating fixed points, tie next to a cascade) x all item sequences up to a length over 15 items x iteration budgets x the 4 optimisation-switch combinations, plus the skeleton grid (forward chains of length 0..12, with and without an oscillator) x budgets 1..30 x 4; every claimed success is re-derived from its own final symbol values and instruction sizes (certificate). Non-trivial = program that needed >= 2 passes under some configuration; distinct by program text. states = distinct (program, passes, bits) final states certified, transitions = passes executed.",
+        "ten rule families with value-dependent encodings (assert cascades with 2 and 3 sizes, typed-width cascade, pc-relative, far-is-short with no/oscillating fixed points, tie next to a cascade) x all item sequences up to a length over 15 items x iteration budgets x the 4 optimisation-switch combinations, plus the skeleton grid (forward chains of length 0..12, with and without an oscillator) x budgets 1..30 x 4; every claimed success is re-derived from its own final symbol values and instruction sizes (certificate). Non-trivial = program that needed >= 2 passes under some configuration; distinct by program text. states = distinct (program, passes, bits) final states certified, transitions = passes executed.",
     );
     let fams = families();
     let budgets: Vec<usize> = if ctx.thorough { (1..=30).collect() } else { quick_budgets() };
